@@ -261,7 +261,7 @@ def get_sym(libs, s, name):
             return r
         return cast
     if name in ('ravel', 'flatten', 'copy', 'reshape', 'view', 'transpose', 'permute', 'contiguous', 'clone',
-                'detach', 'repeat', 'squeeze', 'unsqueeze', 'to', 'astype', 'numel', 'dim'):
+                'detach', 'repeat', 'squeeze', 'unsqueeze', 'to', 'astype', 'numel', 'dim', 'tobytes', 'tolist'):
         return getattr(s, name)
     if name == 'new_zeros':
         raise AnalysisError('unsupported', 'new_zeros on a filter tensor')
